@@ -10,7 +10,7 @@ import "time"
 // day lies in [start, stop) cyclically. At an instant exactly equal to start or
 // stop either answer is accepted (Edge).
 type WinModel struct {
-	NoWindow         bool
+	NoWindow          bool
 	StartMin, StopMin int // minutes after midnight
 }
 
@@ -41,15 +41,15 @@ func (c *SimClock) Advance(d time.Duration) { c.T = c.T.Add(d) }
 
 // DetModel is the fixed-threshold detector as C07 states it.
 type DetModel struct {
-	W, H, Edge   int
-	T            int // temp-thresh
-	Delta        int
-	Count        int
-	Gap          int
-	Warmer       bool
-	OneDiff      bool
-	hist         [][][]uint16
-	prevHit      [][]bool
+	W, H, Edge int
+	T          int // temp-thresh
+	Delta      int
+	Count      int
+	Gap        int
+	Warmer     bool
+	OneDiff    bool
+	hist       [][][]uint16
+	prevHit    [][]bool
 }
 
 // Reset forgets the history (camera reset).
@@ -103,9 +103,9 @@ func (d *DetModel) Frame(pix [][]uint16) (bool, int) {
 // RingModel is the frame ring as C19 states it, over integer tags.
 type RingModel struct {
 	Cap     int
-	Written []int // tags written since creation/reset, oldest first (the last one is the current frame's tag, possibly not yet written → see Cur)
-	MarkPos int   // position (index into the infinite sequence since reset) of the 'oldest' mark; -1 none
-	Pos     int   // position of the current slot since reset
+	Written []int       // tags written since creation/reset, oldest first (the last one is the current frame's tag, possibly not yet written → see Cur)
+	MarkPos int         // position (index into the infinite sequence since reset) of the 'oldest' mark; -1 none
+	Pos     int         // position of the current slot since reset
 	Tags    map[int]int // position -> tag written there
 }
 
@@ -113,9 +113,9 @@ func NewRingModel(cap int) *RingModel {
 	return &RingModel{Cap: cap, MarkPos: 0, Tags: map[int]int{}}
 }
 
-func (m *RingModel) Reset()           { m.MarkPos = 0; m.Pos = 0; m.Tags = map[int]int{} }
-func (m *RingModel) Write(tag int)    { m.Tags[m.Pos] = tag }
-func (m *RingModel) SetAsOldest()     { m.MarkPos = m.Pos }
+func (m *RingModel) Reset()        { m.MarkPos = 0; m.Pos = 0; m.Tags = map[int]int{} }
+func (m *RingModel) Write(tag int) { m.Tags[m.Pos] = tag }
+func (m *RingModel) SetAsOldest()  { m.MarkPos = m.Pos }
 func (m *RingModel) Move() {
 	m.Pos++
 	for k := range m.Tags {
